@@ -104,7 +104,8 @@ class FnDep:
         res = (l, ())
         self._alias[l] = res  # cycle guard
         if not self.is_param(l) and l != 0 and _depth < 64:
-            ds = self.defs.get(l, [])
+            # a write *through* a reference (`(*l).f = v`) is not a re-definition of the reference itself
+            ds = [d for d in self.defs.get(l, []) if not any(q['k'] == 'deref' for q in (d[2].get('dst', {}).get('p') or []))]
             if len(ds) == 1:
                 kind, bi, x = ds[0]
                 if kind == 'assign' and not x['dst'].get('p'):
